@@ -107,6 +107,63 @@ def check_document(text, M, case):
     M.hist("draw_sites", ",".join(sorted(set(fn for _, fn, _ in draws))))
 
 
+class SeqGen:
+    """A caller-supplied id generator (same protocol as gherkin.stream.id_generator.IdGenerator: get_next_id() -> str)
+    whose ids are not 0,1,2,..: prefix + (start + step * n)."""
+
+    def __init__(self, prefix="", start=0, step=1):
+        self.prefix, self.start, self.step, self.n = prefix, start, step, 0
+
+    def value(self, i):
+        return "%s%d" % (self.prefix, self.start + self.step * i)
+
+    def get_next_id(self):
+        v = self.value(self.n)
+        self.n += 1
+        return v
+
+
+GEN_SHAPES = [("", 1000, 1), ("id-", 0, 1), ("", 5000, -1), ("x", 7, 13), ("", 10, 10), ("0", 0, 1)]
+
+
+def check_custom_generator(text, shape, M, case):
+    """Parser + compiler sharing a caller-supplied generator: ids are exactly the generator's outputs, in the canonical
+    draw order, all distinct; references resolve; pickles equal the reference compiler's."""
+    from gherkin.parser import Parser
+    from gherkin.ast_builder import AstBuilder
+    from gherkin.pickles.compiler import Compiler
+    from gherkin.errors import ParserError
+    g = SeqGen(*shape)
+    M.case(h64(["customgen", shape, text]))
+    try:
+        ast = Parser(AstBuilder(g)).parse(text)
+    except ParserError:
+        return
+    M.count("custom_generator_documents")
+    ids = [n.get("id") for n in refcompile.ref_ids(ast)]
+    k = len(ids)
+    M.count("ids_checked", k)
+    if ids != [g.value(i) for i in range(k)] or g.n != k:
+        M.violation("C11.custom", {"what": "with a caller-supplied generator the AST ids are not the generator's outputs in the canonical order",
+                                   "shape": shape, "ids": ids[:12], "expected": [g.value(i) for i in range(min(k, 12))], "draws": g.n}, case)
+        return
+    doc = dict(ast, uri="u")
+    want = refcompile.ref_compile(doc, "u", (lambda c=[k]: (c.__setitem__(0, c[0] + 1), g.value(c[0] - 1))[1]))
+    try:
+        got = Compiler(g).compile(doc)
+    except Exception as e:
+        M.violation("C11.custom", {"what": "compile raised with a caller-supplied generator", "error": repr(e)[:160], "shape": shape}, case)
+        return
+    if got != want:
+        M.violation("C11.custom", {"what": "with a caller-supplied generator the pickles (ids, references) differ from the reference compiler",
+                                   "shape": shape, "got": short(got, 200), "want": short(want, 200)}, case)
+        return
+    check_refs(ast, got, M, case)
+    allids = ids + [s["id"] for p in got for s in p["steps"]] + [p["id"] for p in got]
+    if len(set(allids)) != len(allids):
+        M.violation("G6.unique", {"what": "an id was handed out twice (caller-supplied generator)", "shape": shape}, case)
+
+
 def shift(o, off):
     if isinstance(o, dict):
         return {k: (str(int(v) + off) if k in ("id", "astNodeId") else
@@ -170,6 +227,9 @@ def run_shard(spec, M):
             kw = {"size": "huge", "special": 0.2} if i % 60 == 0 else {}        # ids crossing 1000
             R = doccheck.make_doc(seed, "C11", i, ascii_only=True, **kw)
             check_document(R.text, M, {"kind": "text", "text": R.text})
+            if i % 3 == 0 and len(R.text) < 20000:
+                shape = GEN_SHAPES[(i // 3) % len(GEN_SHAPES)]
+                check_custom_generator(R.text, shape, M, {"kind": "customgen", "text": R.text, "shape": list(shape)})
             if i % 499 == 0:
                 M.sample({"text": short(R.text, 300)})
     elif fam == "thresholds":
@@ -192,6 +252,9 @@ def run_shard(spec, M):
 
 
 def replay(case, M):
+    if case.get("kind") == "customgen":
+        check_custom_generator(case["text"], tuple(case["shape"]), M, case)
+        return
     if case.get("dim"):
         from .. import thresholds
         check_document(thresholds.build(case["dim"], case["n"]).text, M, case)
